@@ -79,10 +79,13 @@ def draw(machine, S, compact):
         for comp in comps:
             t = comp.rectilinear_transform
             cap['comps'].append({'x': q(t.origin_pivot.x), 'w': q(t.width), 'y10': int(round(t.origin_pivot.y * 10)), 'h10': int(round(t.height * 10))})
+        # what the circuit itself reports at this moment (same override, same memo state): the drawing is judged against the
+        # specification's schedule; if it only agrees with these reported values, the report is stale (C03), not the drawing
+        cap['reported'] = [[R.oid(o), q(o.start_time), q(o.end_time)] for o in description.operations]
         return orig(description=description, **kw)
     DC.plot_circuit_description = spy
     res = {'compact': bool(compact), 'order': order, 'labels': [[k, v] for k, v in sorted((labels or {}).items())], 'has_labels': labels is not None,
-           'occupied': occupied, 'rows': [], 'label_map': [], 'width': 0, 'ops': [], 'comps': []}
+           'occupied': occupied, 'rows': [], 'label_map': [], 'width': 0, 'ops': [], 'comps': [], 'reported': []}
     try:
         fig, ax = DC.plot_circuit(h, channel_order=list(order), channel_map=labels, compact_visualization=compact)
         plt.close(fig)
